@@ -36,6 +36,12 @@ func calmLayout(r *rand.Rand) lang.LayoutOpts {
 	}
 }
 
+// the previous case of this worker and what the library returned for it (see runRefProfile)
+var (
+	keptCase *Case
+	keptRes  ImplResult
+)
+
 func runRefProfile(c *core.Ctx, pf *refProfile) {
 	n := int64(c.Pick(pf.quickN, pf.thorN))
 	runOne := func(i int64, p *lang.Program, g *lang.Gen, tag string) {
@@ -66,6 +72,26 @@ func runRefProfile(c *core.Ctx, pf *refProfile) {
 		if mm != nil {
 			c.Violation(mm.Sig, mm.What, detailOf(cs, res))
 			return
+		}
+		// the result of the previous call is still the caller's: whatever this call did, it must not have changed
+		if keptCase != nil && keptCase.Oc != nil {
+			if d := blocksEq(keptCase.Oc.Blocks, keptRes.Blocks); d != "" {
+				c.Violation("earlier-result-changed-by-later-call", "the blocks returned by the previous call changed while this call ran: "+d,
+					map[string]any{"earlier_source": core.Trunc(string(keptCase.Laid.Src), 1500), "this_source": core.Trunc(string(cs.Laid.Src), 1500)})
+				keptCase = nil
+				return
+			}
+			if d := bindingEq(keptCase.Oc.Binding, keptRes.Binding); d != "" && keptRes.Err == nil {
+				c.Violation("earlier-result-changed-by-later-call", "the binding returned by the previous call changed while this call ran: "+d,
+					map[string]any{"earlier_source": core.Trunc(string(keptCase.Laid.Src), 1500), "this_source": core.Trunc(string(cs.Laid.Src), 1500)})
+				keptCase = nil
+				return
+			}
+			c.Count("earlier_results_re_examined_after_the_next_call", 1)
+		}
+		keptCase, keptRes = nil, ImplResult{}
+		if !unspec && cs.Verdict.Kind == lang.Accept && cs.Oc != nil && res.Panic == "" && (len(res.Blocks) > 0 || res.Binding != nil) {
+			keptCase, keptRes = cs, res
 		}
 		if g != nil && cs.Verdict.Kind == lang.Accept {
 			// the generator's incremental machine and the whole-program run must agree (harness self-check)
@@ -498,7 +524,7 @@ func init() {
 		Rule: "reference-model monitor on block-centred programs: toplevel and nested blocks (depth <= 4), repeated types and names, names needing escapes, fields re-assigned, " +
 			"fields named like children / variables / TYPE / NAME, duplicate child keys, runtime errors after k completed blocks; deep comparison of []Block " +
 			"(count, order, Type, Name, exact key set, values with Go dynamic type, children under type / type.name), of output and of the error. " +
-			"distinct = hash of source; non-trivial = specified verdict and >= 1 block opened Also: a third of the programs contain bind statements (the result list must not be disturbed); chains of blocks nested 1..16 deep; block names and strings spelled like numbers, like TYPE / NAME, ending in a dot; long identifiers. When the program yields a binding the harness goes on to Bind it (into a struct type derived from the bound block and into one that does not fit) and then compares the returned blocks and binding with the reference once more.",
+			"distinct = hash of source; non-trivial = specified verdict and >= 1 block opened Also: a third of the programs contain bind statements (the result list must not be disturbed); chains of blocks nested 1..16 deep; block names and strings spelled like numbers, like TYPE / NAME, ending in a dot; long identifiers. Every third program is also parsed once and executed three times (each execution must give the reference's blocks, binding and error); in all reference checks the result of the previous call is compared with its reference once more after the next call has run (results belong to the caller). When the program yields a binding the harness goes on to Bind it (into a struct type derived from the bound block and into one that does not fit) and then compares the returned blocks and binding with the reference once more.",
 		Assumptions:   []string{"DESIGN §5.4 block rules are the language definition"},
 		MinNontrivial: 1000,
 		Run: func(c *core.Ctx) {
@@ -523,6 +549,34 @@ func init() {
 						return
 					}
 					c.Count("toplevel_blocks_returned", int64(len(cs.Oc.Blocks)))
+					if i%3 == 0 && cs.Verdict.Kind == lang.Accept && cs.Oc.Unspecified == "" && r.Panic == "" {
+						// one Prog executed three times: every execution gives what the program defines
+						var out, lg bytes.Buffer
+						if p, perr := bcl.Parse(cs.Laid.Src, "twice", bcl.OptOutput(&out), bcl.OptLogger(&lg)); perr == nil {
+							for run := 1; run <= 3; run++ {
+								var bl []bcl.Block
+								var bi bcl.Binding
+								var xerr error
+								pan, stack := protect(func() { bl, bi, xerr = bcl.Execute(p) })
+								c.Eval(1)
+								if pan != "" {
+									c.Violation(panicSig(pan, stack), fmt.Sprintf("execution %d of one Prog panicked: %s", run, pan), detailOf(cs, r))
+									return
+								}
+								if d := blocksEq(cs.Oc.Blocks, bl); d != "" || (xerr == nil) != (cs.Oc.Err == nil) {
+									c.Violation("repeated-execution-differs", fmt.Sprintf("execution %d of one Prog: %s (error %v, expected an error: %v)", run, d, xerr, cs.Oc.Err != nil), detailOf(cs, r))
+									return
+								}
+								if xerr == nil {
+									if d := bindingEq(cs.Oc.Binding, bi); d != "" {
+										c.Violation("repeated-execution-differs", fmt.Sprintf("execution %d of one Prog: %s", run, d), detailOf(cs, r))
+										return
+									}
+								}
+							}
+							c.Count("programs_executed_three_times", 1)
+						}
+					}
 					if r.Binding != nil && r.Err == nil && cs.Oc.Unspecified == "" && r.Panic == "" {
 						// the caller goes on to Bind the returned binding (into a type derived from the bound block,
 						// and into one that does not fit): the result list is the caller's and must not change under it
